@@ -322,13 +322,15 @@ class T:
 # class specs
 # ---------------------------------------------------------------------------
 class ClassSpec:
-    def __init__(self, qualname, fields, invariants=None, interference=None, stable=None, rely=None):
+    def __init__(self, qualname, fields, invariants=None, interference=None, stable=None, rely=None,
+                 identity_fields=None):
         self.qualname = qualname
         self.fields = fields
         self.invariants = invariants or []  # list of (id, lambda self: ...)
         self.interference = interference  # list of field names other actions may change at awaits
         self.stable = stable or []
         self.rely = rely or []
+        self.identity_fields = identity_fields or []
         self._cls = None
 
     @property
@@ -450,6 +452,17 @@ class Contract:
         return self
 
     observe_ = None
+    returns_fn = None  # callable(I, bindings) -> result value at call sites (shape from live tables)
+    pre_call = None  # callable(I, bindings): may raise what the callee raises before doing anything
+
+    def at_effect(self, effect_name, cid, lam):
+        """lam(self, args..., fx, eargs, ekwargs) must hold at the moment the named external effect is emitted."""
+        if not hasattr(self, "effect_asserts") or self.effect_asserts is Contract.effect_asserts:
+            self.effect_asserts = []
+        self.effect_asserts.append((effect_name, cid, lam))
+        return self
+
+    effect_asserts = ()
 
     def await_assert(self, cid, lam):
         self.await_asserts.append((cid, lam))
